@@ -52,7 +52,7 @@ var propC05 = &simProp{
 	ID: "C05",
 	Profile: sim.Profile{
 		Name: "C05", Voters: [2]int{3, 5}, NonVoters: [2]int{0, 2}, Phases: [2]int{2, 6},
-		Patterns: []string{"P2", "P2", "P2", "P9", "P9", "P13", "P13", "P13", "P10", "P10", "P21", "P21", "P25", "P25", "reads", "reads", "free", "P1", "P8", "P3", "P4b"},
+		Patterns: []string{"P2", "P2", "P2", "P9", "P9", "P13", "P13", "P13", "P10", "P10", "P21", "P21", "P25", "P25", "P36", "P36", "reads", "reads", "free", "P1", "P8", "P3", "P4b"},
 		Writes:   true, LinReads: true, Crashes: true, Stops: true, EpilogueET: 6, Prologue: true, FSMDelays: true, Membership: true,
 		Timeouts: []int{200, 500, 1000, 2000}, MaxDelayUs: []int{400, 2000, 8000, 60000},
 	},
